@@ -39,11 +39,17 @@ fn powm(x: u32, e: usize) -> u32 {
     }
     r
 }
-/// dense polynomial from L symbolic raw coefficients (trailing zeros allowed: the constructor must canonicalise)
+/// dense polynomial with exactly L coefficients, ALL symbolic with a non-zero leading one (L = 0: the zero polynomial).
+/// The length is kept concrete on purpose: a Vec of symbolic length makes CBMC's heap model explode; every length pair gets
+/// its own call, and the constructor's canonicalisation of trailing zeros is decided separately (c08_constructors).
 fn dense<const L: usize>() -> ([u32; L], DensePolynomial<F>) {
     let c: [u32; L] = core::array::from_fn(|_| anyv());
-    let v: Vec<F> = c.iter().map(|&x| F::enc(x)).collect();
-    (c, DensePolynomial::from_coefficients_vec(v))
+    if L > 0 {
+        assume(c[L - 1] != 0);
+    }
+    // built through the public `coeffs` field (already canonical by the assumption above)
+    let v: [F; L] = core::array::from_fn(|i| F::enc(c[i]));
+    (c, DensePolynomial { coeffs: v.to_vec() })
 }
 fn dense_eval(p: &DensePolynomial<F>, x: u32) -> u32 {
     let mut acc = 0u32;
@@ -230,35 +236,192 @@ fn mixed_ops<const LA: usize, const TB: usize>() {
     assert!(ok);
 }
 
+fn mixed_one<const LA: usize, const TB: usize, const OP: u8>() {
+    let ((ca, a), (tb, b)) = (dense::<LA>(), sparse::<TB>());
+    let x = anyv();
+    let (fa, fb) = (horner(&ca, x), sparse_raw_eval(&tb, x));
+    let (r, want) = match OP {
+        0 => (&a + &b, (fa + fb) % P),
+        1 => (&a - &b, (fa + P - fb) % P),
+        2 => { let mut t = a.clone(); t += &b; (t, (fa + fb) % P) },
+        _ => { let mut t = a.clone(); t -= &b; (t, (fa + P - fb) % P) },
+    };
+    crate::cover!(LA > 0 && r.coeffs.len() < LA);
+    crate::cover!(TB > 0 && tb[0].0 >= LA);
+    let ok = dense_canon(&r) && dense_eval(&r, x) == want;
+    core::mem::forget((a, b, r));
+    assert!(ok);
+}
+/// mixed dense/sparse operators with CONCRETE sparse degrees (keeps the sort in from_coefficients_vec concrete) and symbolic coefficients
+fn mixed_fixed<const LA: usize, const TB: usize, const OP: u8>(degs: [usize; TB]) {
+    let (ca, a) = dense::<LA>();
+    let cb: [u32; TB] = core::array::from_fn(|_| { let c = anyv(); assume(c != 0); c });
+    let x = anyv();
+    let terms: [(usize, F); TB] = core::array::from_fn(|i| (degs[i], F::enc(cb[i])));
+    let b = SparsePolynomial::from_coefficients_slice(&terms);
+    let mut fb = 0;
+    let mut i = 0;
+    while i < TB {
+        fb = (fb + cb[i] * powm(x, degs[i])) % P;
+        i += 1;
+    }
+    let fa = horner(&ca, x);
+    let (r, want) = match OP {
+        0 => (&a + &b, (fa + fb) % P),
+        1 => (&a - &b, (fa + P - fb) % P),
+        2 => { let mut t = a.clone(); t += &b; (t, (fa + fb) % P) },
+        _ => { let mut t = a.clone(); t -= &b; (t, (fa + P - fb) % P) },
+    };
+    crate::cover!(LA > 0 && r.coeffs.len() < LA);
+    crate::cover!(!r.is_zero());
+    let ok = dense_canon(&r) && dense_eval(&r, x) == want;
+    core::mem::forget((a, b, r));
+    assert!(ok);
+}
+/// constructors canonicalise: from_coefficients_vec / slice on ALL raw coefficient vectors of length L (trailing zeros included)
+fn dense_ctor<const L: usize>() {
+    let c: [u32; L] = core::array::from_fn(|_| anyv());
+    let x = anyv();
+    let v: [F; L] = core::array::from_fn(|i| F::enc(c[i]));
+    let p = DensePolynomial::from_coefficients_slice(&v);
+    crate::cover!(L > 1 && c[L - 1] == 0 && c[L - 2] == 0);
+    let ok = dense_canon(&p) && dense_eval(&p, x) == horner(&c, x) && p.is_zero() == (horner(&c, 0) == 0 && p.coeffs.is_empty());
+    core::mem::forget(p);
+    assert!(ok);
+}
+// ---- single-operation variants (one library call per harness keeps the CBMC heap model small) --------------------
+fn dense_one<const LA: usize, const LB: usize, const OP: u8>() {
+    let ((ca, a), (cb, b)) = (dense::<LA>(), dense::<LB>());
+    let x = anyv();
+    let s = anyv();
+    let (fa, fb) = (horner(&ca, x), horner(&cb, x));
+    let (r, want) = match OP {
+        0 => (&a + &b, (fa + fb) % P),
+        1 => (&a - &b, (fa + P - fb) % P),
+        2 => (-a.clone(), (P - fa) % P),
+        3 => (&a * F::enc(s), (s * fa) % P),
+        4 => { let mut t = a.clone(); t += &b; (t, (fa + fb) % P) },
+        5 => { let mut t = a.clone(); t -= &b; (t, (fa + P - fb) % P) },
+        6 => { let mut t = a.clone(); t += (F::enc(s), &b); (t, (fa + s * fb) % P) },
+        _ => (a.naive_mul(&b), (fa * fb) % P),
+    };
+    crate::cover!(LA == LB && LA > 1 && r.coeffs.len() < LA && !a.is_zero());
+    crate::cover!(!r.is_zero());
+    let ok = dense_canon(&r) && dense_eval(&r, x) == want;
+    core::mem::forget((a, b, r));
+    assert!(ok);
+}
+
 crate::harnesses! { REG;
-    /// quick required | dense + - neg scale += -= and scaled add (a += (s, &b) is a + s*b) over F_13: coefficient vectors of lengths (2,2) — cancelling leading terms — with ALL coefficients, scalars and evaluation points; results canonical, pointwise correct
-    #[unwind(8)]
-    fn c08_dense_linear_22() { dense_linear::<2, 2>() }
-    /// quick required | dense linear operators, lengths (3,1) and (1,3): ALL coefficients / points
-    #[unwind(8)]
-    fn c08_dense_linear_31() { dense_linear::<3, 1>(); dense_linear::<1, 3>() }
-    /// quick required | dense linear operators with a zero operand, lengths (0,2) and (2,0) and (0,0)
-    #[unwind(8)]
-    fn c08_dense_linear_zero() { dense_linear::<0, 2>(); dense_linear::<2, 0>(); dense_linear::<0, 0>() }
-    /// quick required | dense naive_mul, lengths (2,2), (3,2), (0,2): ALL coefficients / points; canonical
-    #[unwind(8)]
-    fn c08_dense_mul() { dense_mul::<2, 2>(); dense_mul::<3, 2>(); dense_mul::<0, 2>() }
-    /// quick required | divide_with_q_and_r, lengths (3,2): a = q*b + r pointwise, deg r < deg b, canonical q and r: ALL coefficients with b != 0 (divisor with zero leading input coefficients included; b = 0 is a documented panic)
-    #[unwind(8)]
+    /// thorough attempt timeout=3000 mem=30 | `&dense - &sparse`: dense 2 coefficients, ONE sparse term at degree 1 (cancels the dense leading coefficient), ALL coefficients: canonical
+    #[unwind(10)]
+    fn c08_mixed_sub_one_term() { mixed_fixed::<2, 1, 1>([1]) }
+    /// thorough attempt timeout=3000 mem=30 | `&dense - &sparse`: dense 2 coefficients, sparse terms at degrees (1, 3) (the lower term can cancel the dense leading coefficient before the higher term is processed) and at degrees (0, 1); ALL coefficients: canonical, pointwise correct, no panic
+    #[unwind(10)]
+    fn c08_mixed_sub_fixed() { mixed_fixed::<2, 2, 1>([1, 3]); mixed_fixed::<2, 2, 1>([0, 1]) }
+    /// thorough attempt timeout=3000 mem=30 | `dense -= &sparse`: degrees (1, 3) and (0, 1), dense 2 coefficients, ALL coefficients
+    #[unwind(10)]
+    fn c08_mixed_sub_assign_fixed() { mixed_fixed::<2, 2, 3>([1, 3]); mixed_fixed::<2, 2, 3>([0, 1]) }
+    /// thorough attempt timeout=3000 mem=30 | `&dense + &sparse` and `dense += &sparse`: degrees (1, 3), dense 2 coefficients, ALL coefficients
+    #[unwind(10)]
+    fn c08_mixed_add_fixed() { mixed_fixed::<2, 2, 0>([1, 3]); mixed_fixed::<2, 2, 2>([1, 3]) }
+    /// thorough attempt timeout=3000 mem=30 | zero dense -/-= zero sparse and zero dense - one-term sparse: canonical results
+    #[unwind(10)]
+    fn c08_mixed_zero_fixed() { mixed_fixed::<0, 0, 1>([]); mixed_fixed::<0, 0, 3>([]); mixed_fixed::<0, 1, 3>([2]); mixed_fixed::<2, 0, 3>([]) }
+    /// quick required | dense `&a + &b` over F_13 on ALL polynomials of exactly 2 coefficients each (equal degrees: cancelling leading terms included), ALL scalars and evaluation points: result canonical and pointwise correct
+    #[unwind(10)]
+    fn c08_dense_add_22() { dense_one::<2, 2, 0>() }
+    /// quick required | dense `&a - &b` over F_13 on ALL polynomials of exactly 2 coefficients each (equal degrees: cancelling leading terms included), ALL scalars and evaluation points: result canonical and pointwise correct
+    #[unwind(10)]
+    fn c08_dense_sub_22() { dense_one::<2, 2, 1>() }
+    /// quick required | dense `-a` over F_13 on ALL polynomials of exactly 2 coefficients each (equal degrees: cancelling leading terms included), ALL scalars and evaluation points: result canonical and pointwise correct
+    #[unwind(10)]
+    fn c08_dense_neg_22() { dense_one::<2, 2, 2>() }
+    /// quick required | dense `&a * s` over F_13 on ALL polynomials of exactly 2 coefficients each (equal degrees: cancelling leading terms included), ALL scalars and evaluation points: result canonical and pointwise correct
+    #[unwind(10)]
+    fn c08_dense_scale_22() { dense_one::<2, 2, 3>() }
+    /// quick required | dense `a += &b` over F_13 on ALL polynomials of exactly 2 coefficients each (equal degrees: cancelling leading terms included), ALL scalars and evaluation points: result canonical and pointwise correct
+    #[unwind(10)]
+    fn c08_dense_add_assign_22() { dense_one::<2, 2, 4>() }
+    /// quick required | dense `a -= &b` over F_13 on ALL polynomials of exactly 2 coefficients each (equal degrees: cancelling leading terms included), ALL scalars and evaluation points: result canonical and pointwise correct
+    #[unwind(10)]
+    fn c08_dense_sub_assign_22() { dense_one::<2, 2, 5>() }
+    /// quick required | dense `a += (s, &b) == a + s*b` over F_13 on ALL polynomials of exactly 2 coefficients each (equal degrees: cancelling leading terms included), ALL scalars and evaluation points: result canonical and pointwise correct
+    #[unwind(10)]
+    fn c08_dense_scaled_add_22() { dense_one::<2, 2, 6>() }
+    /// thorough attempt timeout=3000 mem=30 | dense `a.naive_mul(&b)` over F_13 on ALL polynomials of exactly 2 coefficients each (equal degrees: cancelling leading terms included), ALL scalars and evaluation points: result canonical and pointwise correct
+    #[unwind(10)]
+    fn c08_dense_naive_mul_22() { dense_one::<2, 2, 7>() }
+    /// thorough required | dense `&a + &b` with 3 vs 1 and 1 vs 3 coefficients (ALL values)
+    #[unwind(10)]
+    fn c08_dense_add_31() { dense_one::<3, 1, 0>(); dense_one::<1, 3, 0>() }
+    /// quick required | dense `&a - &b` with 3 vs 1 and 1 vs 3 coefficients (ALL values)
+    #[unwind(10)]
+    fn c08_dense_sub_31() { dense_one::<3, 1, 1>(); dense_one::<1, 3, 1>() }
+    /// thorough required | dense `a -= &b` with 3 vs 1 and 1 vs 3 coefficients (ALL values)
+    #[unwind(10)]
+    fn c08_dense_sub_assign_31() { dense_one::<3, 1, 5>(); dense_one::<1, 3, 5>() }
+    /// quick required | dense `a += (s, &b) == a + s*b` with 3 vs 1 and 1 vs 3 coefficients (ALL values)
+    #[unwind(10)]
+    fn c08_dense_scaled_add_31() { dense_one::<3, 1, 6>(); dense_one::<1, 3, 6>() }
+    /// thorough required | dense `a.naive_mul(&b)` with 3 vs 1 and 1 vs 3 coefficients (ALL values)
+    #[unwind(10)]
+    fn c08_dense_naive_mul_31() { dense_one::<3, 1, 7>(); dense_one::<1, 3, 7>() }
+    /// thorough required | dense `&a + &b` with a zero operand on either side and zero op zero
+    #[unwind(10)]
+    fn c08_dense_add_zero() { dense_one::<0, 2, 0>(); dense_one::<2, 0, 0>(); dense_one::<0, 0, 0>() }
+    /// thorough required | dense `&a - &b` with a zero operand on either side and zero op zero
+    #[unwind(10)]
+    fn c08_dense_sub_zero() { dense_one::<0, 2, 1>(); dense_one::<2, 0, 1>(); dense_one::<0, 0, 1>() }
+    /// thorough required | dense `a += &b` with a zero operand on either side and zero op zero
+    #[unwind(10)]
+    fn c08_dense_add_assign_zero() { dense_one::<0, 2, 4>(); dense_one::<2, 0, 4>(); dense_one::<0, 0, 4>() }
+    /// quick required | dense `a -= &b` with a zero operand on either side and zero op zero
+    #[unwind(10)]
+    fn c08_dense_sub_assign_zero() { dense_one::<0, 2, 5>(); dense_one::<2, 0, 5>(); dense_one::<0, 0, 5>() }
+    /// quick required | dense `a += (s, &b) == a + s*b` with a zero operand on either side and zero op zero
+    #[unwind(10)]
+    fn c08_dense_scaled_add_zero() { dense_one::<0, 2, 6>(); dense_one::<2, 0, 6>(); dense_one::<0, 0, 6>() }
+    /// thorough required | dense `a.naive_mul(&b)` with a zero operand on either side and zero op zero
+    #[unwind(10)]
+    fn c08_dense_naive_mul_zero() { dense_one::<0, 2, 7>(); dense_one::<2, 0, 7>(); dense_one::<0, 0, 7>() }
+    /// quick required | DensePolynomial::from_coefficients_slice on ALL raw coefficient vectors of length 0..=3 (trailing zeros included): canonical, same values
+    #[unwind(10)]
+    fn c08_constructors() { dense_ctor::<0>(); dense_ctor::<1>(); dense_ctor::<2>(); dense_ctor::<3>() }
+    /// thorough attempt timeout=3000 mem=30 | divide_with_q_and_r, 3 by 2 coefficients: a = q*b + r pointwise, deg r < deg b, canonical q and r: ALL coefficients (b = 0 is a documented panic, excluded)
+    #[unwind(10)]
     fn c08_dense_div_32() { dense_div::<3, 2>() }
-    /// quick required | divide_with_q_and_r, lengths (2,3) (dividend shorter) and (4,2) (two quotient steps, interior cancellation)
-    #[unwind(8)]
-    fn c08_dense_div_more() { dense_div::<2, 3>(); dense_div::<4, 2>() }
-    /// quick required | sparse + neg scale mul += -= scaled add, conversions to/from dense: 2 x 2 terms with ALL distinct degrees <= 5 in any input order and ALL non-zero coefficients: canonical (sorted, non-zero), pointwise correct
+    /// thorough required timeout=2400 | divide_with_q_and_r, 2 by 3 (dividend shorter), 4 by 2 (two quotient steps, interior cancellation), 2 by 1, 0 by 2
+    #[unwind(10)]
+    fn c08_dense_div_more() { dense_div::<2, 3>(); dense_div::<4, 2>(); dense_div::<2, 1>(); dense_div::<0, 2>() }
+    /// thorough attempt timeout=3000 mem=30 | `&dense + &sparse`: dense with 2 coefficients, sparse with 2 terms of ALL distinct degrees <= 5 in any input order (above and below the dense degree; cancellation of the dense leading term before the last term is processed), ALL coefficients: canonical, pointwise correct
+    #[unwind(10)]
+    fn c08_mixed_add_22() { mixed_one::<2, 2, 0>() }
+    /// thorough required timeout=2400 | `&dense + &sparse` with a zero dense or zero sparse operand, and dense 3 coefficients vs 1 term
+    #[unwind(10)]
+    fn c08_mixed_add_more() { mixed_one::<0, 1, 0>(); mixed_one::<2, 0, 0>(); mixed_one::<0, 0, 0>(); mixed_one::<3, 1, 0>() }
+    /// thorough attempt timeout=3000 mem=30 | `&dense - &sparse`: dense with 2 coefficients, sparse with 2 terms of ALL distinct degrees <= 5 in any input order (above and below the dense degree; cancellation of the dense leading term before the last term is processed), ALL coefficients: canonical, pointwise correct
+    #[unwind(10)]
+    fn c08_mixed_sub_22() { mixed_one::<2, 2, 1>() }
+    /// thorough required timeout=2400 | `&dense - &sparse` with a zero dense or zero sparse operand, and dense 3 coefficients vs 1 term
+    #[unwind(10)]
+    fn c08_mixed_sub_more() { mixed_one::<0, 1, 1>(); mixed_one::<2, 0, 1>(); mixed_one::<0, 0, 1>(); mixed_one::<3, 1, 1>() }
+    /// thorough attempt timeout=3000 mem=30 | `dense += &sparse`: dense with 2 coefficients, sparse with 2 terms of ALL distinct degrees <= 5 in any input order (above and below the dense degree; cancellation of the dense leading term before the last term is processed), ALL coefficients: canonical, pointwise correct
+    #[unwind(10)]
+    fn c08_mixed_add_assign_22() { mixed_one::<2, 2, 2>() }
+    /// thorough required timeout=2400 | `dense += &sparse` with a zero dense or zero sparse operand, and dense 3 coefficients vs 1 term
+    #[unwind(10)]
+    fn c08_mixed_add_assign_more() { mixed_one::<0, 1, 2>(); mixed_one::<2, 0, 2>(); mixed_one::<0, 0, 2>(); mixed_one::<3, 1, 2>() }
+    /// thorough attempt timeout=3000 mem=30 | `dense -= &sparse`: dense with 2 coefficients, sparse with 2 terms of ALL distinct degrees <= 5 in any input order (above and below the dense degree; cancellation of the dense leading term before the last term is processed), ALL coefficients: canonical, pointwise correct
+    #[unwind(10)]
+    fn c08_mixed_sub_assign_22() { mixed_one::<2, 2, 3>() }
+    /// thorough required timeout=2400 | `dense -= &sparse` with a zero dense or zero sparse operand, and dense 3 coefficients vs 1 term
+    #[unwind(10)]
+    fn c08_mixed_sub_assign_more() { mixed_one::<0, 1, 3>(); mixed_one::<2, 0, 3>(); mixed_one::<0, 0, 3>(); mixed_one::<3, 1, 3>() }
+    /// thorough attempt timeout=3000 mem=30 | sparse + neg scale mul += -= scaled add, conversions: 2 x 2 terms, ALL distinct degrees <= 5 in any order, ALL non-zero coefficients
     #[unwind(10)]
     fn c08_sparse_22() { sparse_ops::<2, 2>() }
-    /// quick required | sparse operators with 1 x 2 terms and with a zero operand
+    /// thorough attempt timeout=3000 mem=30 | sparse operators with 1 x 2 terms and with a zero operand
     #[unwind(10)]
     fn c08_sparse_12_zero() { sparse_ops::<1, 2>(); sparse_ops::<0, 1>(); sparse_ops::<1, 0>() }
-    /// quick required | dense/sparse mixes: &dense + &sparse, &dense - &sparse, dense += &sparse, dense -= &sparse: dense length 2, sparse 2 terms (degrees above and below the dense one; cancellation of the leading term): canonical, pointwise correct
-    #[unwind(10)]
-    fn c08_mixed_22() { mixed_ops::<2, 2>() }
-    /// quick required | dense/sparse mixes with a zero dense operand or a zero sparse operand, and dense length 3 with 1 sparse term
-    #[unwind(10)]
-    fn c08_mixed_more() { mixed_ops::<0, 1>(); mixed_ops::<2, 0>(); mixed_ops::<3, 1>() }
 }
